@@ -257,6 +257,15 @@ class C12(Check):
         a, b, unit_only = domain(spec)
         o = stream(rk, "ops")
         pool = [[round(a[d] + (b[d] - a[d]) * o.choice([0.0, 0.125, 0.25, 0.5, 0.75, 1.0, o.random()]), 6) for d in range(dim)] for _ in range(8)]
+        # points lying exactly on the family's kinks / discontinuities in some coordinates (where a scalar and a
+        # vectorised implementation may draw the line differently)
+        for k in range(4):
+            q = list(pool[k])
+            for d in range(dim):
+                ks = [x for x in kinks(spec, d) if a[d] <= x <= b[d]]
+                if ks and o.random() < 0.6:
+                    q[d] = float(o.choice(ks))
+            pool.append(q)
 
         def pt():
             return o.choice(pool) if o.random() < 0.6 else [round(a[d] + (b[d] - a[d]) * o.random(), 6) for d in range(dim)]
